@@ -521,3 +521,116 @@ def _(v):
     v.ground("python.single_definition_of_the_mean_motion", len(py_n) == 1, "assignments to n: %s" % py_n)
     pM = None if (py_M is None or len(py_n) != 1) else py_M.subs(n_sym, py_n[0])
     v.ground("python.M_from_T", ok(pM, spec_M), "Python: n = %s, M = %s" % (py_n, py_M))
+
+
+# ---------------------------------------------------------------------------- the masses of a conversion are final before they are used
+def _terminates(block):
+    if not block:
+        return False
+    last = block[-1]
+    if isinstance(last, (ast.Return, ast.Raise)):
+        return True
+    if isinstance(last, ast.If):
+        return _terminates(last.body) and _terminates(last.orelse)
+    return False
+
+
+def _chains(fn):
+    """for every AST node inside fn: the chain [(block list, index of the statement in it, branch tag)] from the function body down"""
+    out = {}
+
+    def visit_block(block, chain, tag):
+        for i, s in enumerate(block):
+            c = chain + [(block, i, tag)]
+            for sub in ast.walk(s):
+                out.setdefault(id(sub), c)
+            for fld in ("body", "orelse", "finalbody"):
+                b = getattr(s, fld, None)
+                if isinstance(b, list) and b and isinstance(b[0], ast.stmt):
+                    # nodes inside the nested block get the longer chain
+                    for sub in b:
+                        for x in ast.walk(sub):
+                            out.pop(id(x), None)
+                    visit_block(b, c, (id(s), fld, isinstance(s, (ast.For, ast.While))))
+            for h in getattr(s, "handlers", []) or []:
+                for sub in h.body:
+                    for x in ast.walk(sub):
+                        out.pop(id(x), None)
+                visit_block(h.body, c, (id(s), "handler%d" % id(h), False))
+    visit_block(fn.body, [], None)
+    return out
+
+
+def _may_flow(chain_r, chain_w):
+    """can control go from the statement holding the read to the statement holding the write? (structured code: if / for / while /
+    return / raise; a loop body may repeat)"""
+    k = 0
+    while k < len(chain_r) and k < len(chain_w) and chain_r[k][0] is chain_w[k][0] and chain_r[k][1] == chain_w[k][1] \
+            and (k + 1 < len(chain_r) and k + 1 < len(chain_w)) and chain_r[k + 1][2] == chain_w[k + 1][2]:
+        k += 1
+    # k: first level at which the two chains part (same block list, or different sub-blocks of one compound statement)
+    in_loop = any(c[2] is not None and c[2][2] for c in chain_r[:k + 1])
+    if chain_r[k][0] is not chain_w[k][0]:
+        # different sub-blocks of the same compound statement (if-body / else): exclusive unless inside a loop
+        return in_loop
+    if chain_r[k][1] > chain_w[k][1]:
+        return in_loop
+    if chain_r[k][1] == chain_w[k][1]:
+        # same simple statement (read and write in one statement: the read is evaluated first, e.g. x.m = f(x.m)) or the header
+        # of a compound statement: not a use of a stale value
+        return False
+    for blk, i, tag in chain_r[k + 1:]:
+        if _terminates(blk):
+            return False
+    return True
+
+
+@P.task("parsers.python_masses_are_final_before_a_conversion_uses_them", fn=CFN)
+def _(v):
+    """Particle.__init__ may replace the primary (default: centre of mass; index / hash lookup) and, with jacobi_masses=True, its
+    mass (mu = G M_jacobi).  Every conversion that involves the gravitational parameter -- a from P, M from T, and the C
+    conversions the primary is passed to -- must use the FINAL primary: def-use contract on the real AST of __init__: no value use
+    of `primary` (primary.m, or primary as a call argument) can be followed on any control-flow path by an assignment to primary or
+    primary.<member>; the same for self.m (the particle's own mass)."""
+    src = open(os.path.join(REPO, "rebound", "particle.py")).read()
+    mod = ast.parse(src)
+    init = None
+    for node in ast.walk(mod):
+        if isinstance(node, ast.ClassDef) and node.name == "Particle":
+            for f in node.body:
+                if isinstance(f, ast.FunctionDef) and f.name == "__init__":
+                    init = f
+    v.ground("init_found", init is not None, "")
+    if init is None:
+        return
+    chains = _chains(init)
+
+    def is_primary(n):
+        return isinstance(n, ast.Name) and n.id == "primary"
+
+    def is_self_m(n):
+        return isinstance(n, ast.Attribute) and n.attr == "m" and isinstance(n.value, ast.Name) and n.value.id == "self"
+    for label, is_obj, writes_of, uses_of in (
+            ("primary",
+             is_primary,
+             lambda n: (isinstance(n, ast.Name) and n.id == "primary" and isinstance(n.ctx, ast.Store))
+             or (isinstance(n, ast.Attribute) and is_primary(n.value) and isinstance(n.ctx, ast.Store)),
+             lambda n: (isinstance(n, ast.Attribute) and is_primary(n.value) and isinstance(n.ctx, ast.Load))
+             or (isinstance(n, ast.Call) and any(is_primary(a) for a in n.args)
+                 and not (isinstance(n.func, ast.Name) and n.func.id in ("isinstance", "type")))),   # type tests are not value uses
+            ("self.m",
+             is_self_m,
+             lambda n: is_self_m(n) and isinstance(n.ctx, ast.Store),
+             lambda n: is_self_m(n) and isinstance(n.ctx, ast.Load))):
+        writes = [n for n in ast.walk(init) if writes_of(n)]
+        uses = [n for n in ast.walk(init) if uses_of(n)]
+        v.ground("%s.writes_and_uses_found" % label, len(writes) >= 1 and len(uses) >= 2, "writes %d, value uses %d" % (len(writes), len(uses)))
+        stale = []
+        for u in uses:
+            for w in writes:
+                cu, cw = chains.get(id(u)), chains.get(id(w))
+                if cu is None or cw is None:
+                    continue
+                if _may_flow(cu, cw):
+                    stale.append("line %d uses %s, line %d assigns it afterwards" % (u.lineno, label, w.lineno))
+        v.ground("%s.no_value_use_before_a_later_assignment" % label, not stale, "; ".join(sorted(set(stale))[:5]))
